@@ -1,13 +1,17 @@
 #!/bin/bash
-# usage: tools_applyfix.sh <patchfile> "<commit message>"   (applies to /repo, runs baseline, commits)
-set -e
+# usage: tools_applyfix.sh <patchfile> "<commit message>"   (applies to /repo, runs baseline, commits; reverts on failure)
 cd /repo
-git apply "$1"
-/venv/bin/python -m pytest -q -rf -p no:cacheprovider --timeout=900 --continue-on-collection-errors > /tmp/_fix_test.log 2>&1 || true
-tail -1 /tmp/_fix_test.log
-bad=$(grep '^FAILED' /tmp/_fix_test.log | grep -v -E 'test_conformer_to_lib|test_ensemble_lib|test_load_all|test_loads_all' || true)
-npass=$(tail -1 /tmp/_fix_test.log | sed -E 's/.* ([0-9]+) passed.*/\1/')
-if [ -n "$bad" ] || [ "$npass" -lt 81 ]; then echo "UNEXPECTED TEST RESULT - not committing: $bad"; exit 1; fi
+if [ -n "$(git status --porcelain)" ]; then echo "/repo not clean - refusing"; exit 1; fi
+git apply "$1" || exit 1
+for attempt in 1 2 3; do
+  /venv/bin/python -m pytest -q -rf -p no:cacheprovider --timeout=900 --continue-on-collection-errors > /tmp/_fix_test.log 2>&1 || true
+  tail -1 /tmp/_fix_test.log
+  bad=$(grep '^FAILED' /tmp/_fix_test.log | grep -v -E 'test_conformer_to_lib|test_ensemble_lib|test_load_all|test_loads_all' || true)
+  npass=$(tail -1 /tmp/_fix_test.log | sed -E 's/.* ([0-9]+) passed.*/\1/')
+  if [ -z "$bad" ] && [ "$npass" -ge 81 ]; then break; fi
+  echo "attempt $attempt: unexpected: $bad"
+done
+if [ -n "$bad" ] || [ "$npass" -lt 81 ]; then echo "UNEXPECTED TEST RESULT - reverting"; git checkout -- .; exit 1; fi
 git add -A molli
 git commit -q -m "$2"
 git log --oneline | head -1
